@@ -162,6 +162,25 @@ def rule_newlines(ck: Check, repo: Repo) -> None:
     elif not (_ord(fn)[id(rd)] < _ord(fn)[id(det[0])] < _ord(fn)[id(norm[0])] < _ord(fn)[id(wr)]):
         r.violation(q, "line endings are detected after normalisation (or after the write)",
                     "detection must see the raw text", repo.loc(det[0]))
+    # the text knows only "\n" AFTER the normalisation: a question about "\n" asked of the raw text (final newline? empty
+    # line?) gets the wrong answer for CR and CRLF files
+    if len(norm) == 1:
+        pos = _ord(fn)
+        for x in ast.walk(fn):
+            probe = None
+            if isinstance(x, ast.Call) and isinstance(x.func, ast.Attribute) and x.func.attr in ("endswith", "startswith", "rstrip", "lstrip", "strip", "split", "count", "find", "index") \
+                    and ast.unparse(x.func.value) == "text" and x.args and isinstance(x.args[0], ast.Constant) and x.args[0].value == "\n":
+                probe = x
+            elif isinstance(x, ast.Compare) and isinstance(x.left, ast.Constant) and x.left.value == "\n" and ast.unparse(x.comparators[0]) == "text":
+                probe = x
+            if probe is not None:
+                before = pos[id(probe)] < pos[id(norm[0])]
+                r.instance(f"newline-probe:{ast.unparse(probe)[:40]}", {"probe": ast.unparse(probe)[:60], "before_normalisation": before})
+                if before:
+                    r.violation(q, f"`{ast.unparse(probe)[:50]}` is asked of the text before its line endings are normalised",
+                                "a file with CR-only endings ends in `\\r`: it is taken for a file without final newline (or without lines) and"
+                                " what is decided on that - here: stripping the trailing newlines of the output - removes the file's own final"
+                                " line ending", repo.loc(probe))
     if ast.unparse(kwarg(wr, "newline") or ast.Constant(None)) != var:
         r.violation(q, "file is not written back with the detected line ending",
                     f"open(..., 'w', newline={ast.unparse(kwarg(wr, 'newline') or ast.Constant(None))})", repo.loc(wr))
@@ -280,6 +299,24 @@ def rule_shebang(ck: Check, repo: Repo, rid: str = "R3") -> None:
             r.violation(q, "place_header operands", f"{pa}; expected {['<the created header>'] + want[1:]}", repo.loc(ph[0]))
         if "if style.SHEBANGS:" not in ast.unparse(fn):
             r.violation(q, "shebang table not consulted", "", repo.loc(fn))
+        # the operands handed to place_header are bound ONLY by the finder, by constants and by _extract_shebang: another
+        # mechanism that moves text above (or out of) the header is a new feature this rule has no table for
+        watched = set(want[1:3])
+        for st in ast.walk(fn):
+            tgts = []
+            if isinstance(st, ast.Assign):
+                tgts = [(t, st.value) for t in st.targets]
+            elif isinstance(st, (ast.AugAssign, ast.AnnAssign)) and st.value is not None:
+                tgts = [(st.target, st.value)]
+            for t, val in tgts:
+                names = {n.id for n in ast.walk(t) if isinstance(n, ast.Name)}
+                if not names & watched:
+                    continue
+                src_ok = isinstance(val, ast.Constant) or (isinstance(val, ast.Call) and ast.unparse(val.func) in ("_extract_shebang", "_find_first_spdx_comment")) \
+                    or (isinstance(val, ast.Tuple) and all(isinstance(e, (ast.Constant, ast.Name)) for e in val.elts)) and not isinstance(st, ast.AugAssign)
+                if isinstance(st, ast.AugAssign) or not src_ok:
+                    raise AnalysisError(f"{name}: `{ast.unparse(st)[:70]}` moves text above or out of the header by a mechanism other than the"
+                                        " style's SHEBANGS table; whether that text is found again on the next run is not decided")
     shebang_decision(r, repo)
     es = repo.func(f"{HD}._extract_shebang")
     src = re.sub(r"\s+", " ", ast.unparse(es))
@@ -513,7 +550,10 @@ def run(ck: Check, repo: Repo) -> None:
     ck.trust("CPython ast", "sa/tab.py")
     rule_place_header(ck, repo)
     rule_newlines(ck, repo)
-    rule_shebang(ck, repo)
+    try:
+        rule_shebang(ck, repo)
+    except AnalysisError as err:   # an undecidable first-line mechanism must not hide what the other rules find
+        ck.defer(err)
     rule_partition(ck, repo)
     rule_bom(ck, repo)
     # a write that fails on its own text after the truncating open leaves the file EMPTY (shared with C11-R10)
